@@ -236,6 +236,42 @@ pub fn run(path: &str) {
                 });
                 writeln!(out, "rb {}", r.unwrap_or_else(|| "panic".to_string())).unwrap();
             }
+            "rbscan" => {
+                // rbscan <ro> <hexbytes> <start> <count>: the allocator's scans on one refcount slice
+                let ro: u8 = t[1].parse().unwrap();
+                let bytes: Vec<u8> = (0..t[2].len() / 2)
+                    .map(|i| u8::from_str_radix(&t[2][2 * i..2 * i + 2], 16).unwrap())
+                    .collect();
+                let start: usize = t[3].parse().unwrap();
+                let count: usize = t[4].parse().unwrap();
+                let r = guard(|| {
+                    let mut rb = RefBlock::new(ro, bytes.len(), None);
+                    unsafe {
+                        std::ptr::copy_nonoverlapping(bytes.as_ptr(), rb.as_mut_ptr(), bytes.len());
+                    }
+                    let fr = match rb.get_free_range(start, count) {
+                        Some(r) => format!("{}..{}", r.start, r.end),
+                        None => "-".to_string(),
+                    };
+                    let tl = match rb.get_tail_free_range() {
+                        Some(r) => format!("{}..{}", r.start, r.end),
+                        None => "-".to_string(),
+                    };
+                    // alloc_range on the range found (or on the requested window)
+                    let (a, b) = match rb.get_free_range(start, count) {
+                        Some(r) => (r.start, r.end),
+                        None => (start, start + count),
+                    };
+                    let ok = rb.alloc_range(a, b).is_ok();
+                    let n = bytes.len() * 8 / (1usize << ro);
+                    let mut vals = String::new();
+                    for i in 0..n {
+                        write!(vals, "{},", rb.get(i).into_plain()).unwrap();
+                    }
+                    format!("fr={} tail={} alloc={} vals={}", fr, tl, ok as u8, vals)
+                });
+                writeln!(out, "rbscan {}", r.unwrap_or_else(|| "panic".to_string())).unwrap();
+            }
             "hdr" => {
                 // hdr <hexbytes>: Qcow2Header::from_buf on an arbitrary buffer
                 let bytes: Vec<u8> = if t.len() > 1 {
